@@ -8,7 +8,7 @@
    cascade children, soundness of the executable checker) are kept. *)
 From Coq Require Import ZArith List Bool Lia Arith.
 Import ListNotations.
-Require Import Params StateW ModularW DisposeW StateP ModularP Rc RcSpec RcP RcWeakP RcDepthP RcEpochP RcSnapCheck RcSnapP RcStampP RcSnapInvP.
+Require Import Params StateW ModularW DisposeW StateP ModularP Rc RcSpec RcP RcWeakP RcDepthP RcEpochP RcSnapCheck RcSnapP RcStampP RcSnapInvP RcWSnapInvP.
 Local Open Scope Z_scope.
 
 Theorem C02_ebr_layer_invariant :
@@ -195,4 +195,21 @@ Theorem C02_residues_not_ahead :
        bounded s -> bounded s' -> kid_recent s -> RInv s -> micro s t rec = Some (s', obs) -> RInv s'.
 Proof. exact RcSnapInvP.micro_rinv. Qed.
 Print Assumptions C02_residues_not_ahead.
+
+
+(* ---- FINAL FORM (RcWSnapInvP.v): the same statements under run_ok only - fresh start, well-formed programs
+   (cellops_ok, bounded_run) and the run hypotheses H2 pinned / H3 scoped, wscoped / epoch < 2^62; the former hypothesis
+   live_counted (scounted_ok, wcounted_ok = finding F5, wlive_ok) is now a THEOREM (C02_count_hypotheses_discharged) *)
+Theorem C02_final :
+  forall (s0 : state) (sched : list (nat * list Z)),
+       fresh_start s0 ->
+       cellops_ok s0 -> bounded_run s0 sched -> c03_run s0 sched -> snap_valid (mrun s0 sched).
+Proof. exact RcWSnapInvP.C02_final. Qed.
+Print Assumptions C02_final.
+
+Theorem C02_count_hypotheses_discharged :
+  forall (s0 : state) (sched : list (nat * list Z)),
+       fresh_start s0 -> cellops_ok s0 -> bounded_run s0 sched -> c03_run s0 sched -> live_counted s0 sched.
+Proof. exact RcWSnapInvP.live_counted_along_runs. Qed.
+Print Assumptions C02_count_hypotheses_discharged.
 
